@@ -95,6 +95,9 @@ pub struct Scenario {
     /// client address changes alternate between two addresses instead of always moving on
     #[serde(default)]
     pub rebind_toggle: bool,
+    /// the datagram with the spoofed source address (net.spoof_after_us) carries probing frames only
+    #[serde(default)]
+    pub spoof_probe: bool,
 }
 
 #[derive(Clone, Debug, Serialize, Deserialize)]
